@@ -43,7 +43,8 @@ func init() {
 		Assumptions: []string{
 			"DecodeOwned / DecodeOwnedHSMSPayload document an ownership transfer of the input buffer: their inputs are never mutated by the harness, only their outputs",
 			"constructors and decoders are deterministic, so a twin built from equal inputs is the counterfactual 'never mutated' object (C01/C02 judge the values themselves)",
-			"lazy encode-once of a constructed body is not observable at the API boundary; only its consequences (identical bytes, no race report) are judged",
+			"lazy encode-once of a constructed body is observed through a delegating secs2.Item wrapper that counts AppendTo/ToBytes calls (c12_once.go: body lengths around 255/256 and 64 KiB, " +
+				"ToBytes / Codec().MarshalBinary / AppendBodyTo on the message and its With* copies, one first caller or 8 concurrent ones); an encoder that bypasses the public Item interface is not seen",
 		},
 		Phases: func(tier string) []fw.Phase {
 			return []fw.Phase{
@@ -55,7 +56,7 @@ func init() {
 		},
 		Worker: c12Worker,
 		RequiredEvents: []string{"objects_checked", "snapshots", "input_slices_mutated", "output_slices_mutated", "item_identity_checks",
-			"concurrent_cases", "concurrent_first_call_snapshots", "cases_with_overlapping_readers", "restamped_copies", "derived_messages"},
+			"concurrent_cases", "concurrent_first_call_snapshots", "cases_with_overlapping_readers", "restamped_copies", "derived_messages", "encode_once_cases", "encode_once_cases_body_over_64k"},
 	})
 }
 
@@ -85,8 +86,10 @@ type c12Emit func(o any, m c12Meta)
 func c12Worker(env *fw.Env) {
 	if env.Phase == "race" {
 		c12Concurrent(env)
+		c12EncodeOnce(env)
 		return
 	}
+	defer c12EncodeOnce(env)
 	total := int64(env.Pick(15400, 300000))
 	for i := int64(0); i < total; i++ {
 		if !env.Mine(i) || !env.Want(i) {
